@@ -475,6 +475,47 @@ def tiny_patch_mesh(draw, renumber=True, micro=False):
     return mesh
 
 
+@st.composite
+def polar_patch_mesh(draw, renumber=True):
+    """Cells next to a pole (the polar rows of a quarter-degree mesh): 1-3 rings of 3-8 nodes at 0.02 .. 0.85 degrees
+    from the pole -- outside the library's documented pole cap (|z| > 1 - 1e-8, i.e. 0.0081 degrees), inside any wider
+    band a careless tolerance would snap -- around the pole node itself (triangle fan), an n-gon enclosing the pole, or
+    a hole.  Regular or irregular longitudes; either pole."""
+    north = draw(st.booleans())
+    n = draw(st.integers(3, 8))
+    c1 = draw(sampled_from([0.02, 0.05, 0.1, 0.2]))
+    dc = draw(sampled_from([0.03, 0.1, 0.2]))
+    m = draw(st.integers(1, 3))
+    lon0 = draw(sampled_from([0.0, 7.3, -180.0, 33.0]))
+    centre = draw(sampled_from(["pole", "cap", "hole"]))
+    if m == 1 and centre == "hole":
+        centre = "cap"
+    jit = draw(st.lists(st.floats(-0.2, 0.2, allow_nan=False), min_size=n, max_size=n)) if draw(st.booleans()) else [0.0] * n
+    lons = [((lon0 + (k + jit[k]) * 360.0 / n + 180.0) % 360.0) - 180.0 for k in range(n)]
+    sg = 1.0 if north else -1.0
+    nodes = []
+    for r in range(m):
+        for k in range(n):
+            nodes.append((lons[k], sg * (90.0 - (c1 + r * dc))))
+    faces = []
+    for r in range(m - 1):
+        for k in range(n):
+            k2 = (k + 1) % n
+            faces.append([(r + 1) * n + k, (r + 1) * n + k2, r * n + k2, r * n + k])  # outer edge eastward
+    if centre == "pole":
+        pole = len(nodes)
+        nodes.append((0.0, sg * 90.0))
+        for k in range(n):
+            faces.append([pole, k, (k + 1) % n])
+    elif centre == "cap":
+        faces.append(list(range(n)))
+    if not north:
+        faces = [f[::-1] for f in faces]
+    mesh = finish_mesh(draw, nodes, faces, renumber)
+    mesh["family"] = "polar-patch"
+    return mesh
+
+
 def with_orphan_nodes(draw, mesh, gap_max=9):
     """The same faces inside a longer node list: node i moves to the running sum of drawn gaps (1..gap_max), the
     nodes in between are used by no face (legal UGRID; e.g. a regional extract that keeps the full mesh's numbering)."""
@@ -495,9 +536,11 @@ def with_orphan_nodes(draw, mesh, gap_max=9):
 
 
 @st.composite
-def any_mesh(draw, max_pts=24, partial=True, structured=True, voronoi=True, renumber=True, tiny=False, orphans=False):
+def any_mesh(draw, max_pts=24, partial=True, structured=True, voronoi=True, renumber=True, tiny=False, orphans=False, polar=False):
     if orphans and draw(st.integers(0, 7)) == 0:
-        return with_orphan_nodes(draw, draw(any_mesh(max_pts, partial, structured, voronoi, renumber, tiny, False)), draw(sampled_from([2, 9, 40])))
+        return with_orphan_nodes(draw, draw(any_mesh(max_pts, partial, structured, voronoi, renumber, tiny, False, polar)), draw(sampled_from([2, 9, 40])))
+    if polar and draw(st.integers(0, 9)) == 0:
+        return draw(polar_patch_mesh(renumber))
     if tiny and draw(st.integers(0, 6)) == 0:
         return draw(tiny_patch_mesh(renumber))
     opts = ["hull", "hull", "hull"]
